@@ -117,27 +117,32 @@ pub fn run(args: &[String]) -> i32 {
             "pair" => {
                 // two genes of one long genome, at distances 1, 64 and 128
                 let rate = u(&row["a"]) as f64 / u(&row["D"]) as f64;
-                let len = 200usize;
-                for (i, j) in [(0usize, 1usize), (0, 64), (5, 133), (3, 67)] {
+                // (also pairs that reach into the last, partial 64-gene word of a 200- and a 70-gene genome)
+                for (len, i, j) in [(200usize, 0usize, 1usize), (200, 0, 64), (200, 5, 133), (200, 3, 67), (200, 135, 199),
+                                    (200, 130, 194), (70, 0, 64), (70, 5, 69), (70, 62, 63)] {
                     let mut targets: Vec<(String, Box<dyn FnMut(&mut SmallRng) -> String>)> = Vec::new();
-                    targets.push((format!("with_rate_bits:{i},{j}"), Box::new(move |r| {
+                    targets.push((format!("with_rate_bits/{len}:{i},{j}"), Box::new(move |r| {
                         let Ok(c) = WithRate::new(rate as f32).mutate(Bitstring { bits: vec![false; len] }, r);
                         key([c.bits[i], c.bits[j]])
                     })));
-                    targets.push((format!("with_rate_vec:{i},{j}"), Box::new(move |r| {
+                    targets.push((format!("with_rate_vec/{len}:{i},{j}"), Box::new(move |r| {
                         let Ok(c) = WithRate::new(rate as f32).mutate(vec![false; len], r);
                         key([c[i], c[j]])
                     })));
-                    targets.push((format!("bitstring_random_with_probability:{i},{j}"), Box::new(move |r| {
+                    targets.push((format!("bitstring_random_with_probability/{len}:{i},{j}"), Box::new(move |r| {
                         let c = Bitstring::random_with_probability(len, rate, r);
                         key([c.bits[i], c.bits[j]])
                     })));
                     if u(&row["a"]) * 2 == u(&row["D"]) {
-                        targets.push((format!("uniform_xo_bits:{i},{j}"), Box::new(move |r| {
+                        targets.push((format!("uniform_xo_bits/{len}:{i},{j}"), Box::new(move |r| {
                             let c = UniformXo.recombine([Bitstring { bits: vec![false; len] }, Bitstring { bits: vec![true; len] }], r).expect("len");
                             key([c.bits[i], c.bits[j]])
                         })));
-                        targets.push((format!("uniform_xo_vec:{i},{j}"), Box::new(move |r| {
+                        targets.push((format!("bitstring_random/{len}:{i},{j}"), Box::new(move |r| {
+                            let c = Bitstring::random(len, r);
+                            key([c.bits[i], c.bits[j]])
+                        })));
+                        targets.push((format!("uniform_xo_vec/{len}:{i},{j}"), Box::new(move |r| {
                             let c = UniformXo.recombine((vec![false; len], vec![true; len]), r).expect("len");
                             key([c[i], c[j]])
                         })));
